@@ -123,6 +123,19 @@ func (ks *keyset) text(cls, kind string, rng *rand.Rand) string {
 			return strings.ToLower(key(0))
 		}
 		return strings.ToUpper(key(0))
+	case "case_data":
+		// the prefix keeps its case, only the data part changes case
+		k := key(0)
+		i := strings.LastIndex(k, "1") + 1
+		if kind == "ids" {
+			return k[:i] + strings.ToLower(k[i:])
+		}
+		return k[:i] + strings.ToUpper(k[i:])
+	case "long_comment":
+		return "#" + strings.Repeat("c", 8191+rng.Intn(3))
+	case "long_comment_key":
+		// a comment longer than any line buffer whose tail is a valid key
+		return "#" + strings.Repeat("c", 8191) + key(1)
 	case "other_kind":
 		return otherKind()
 	case "two_keys":
@@ -423,7 +436,7 @@ func gen(run *vk.Run, what, c string) []fcase {
 	return out
 }
 
-var badAll = []string{"subst1", "truncated", "lead_ws", "trail_ws", "wrong_case", "other_kind", "two_keys", "ws_comment", "ws_only", "cr_only", "key_hash", "key_hash_c", "sep_lost", "sep_gone", "nul", "bom"}
+var badAll = []string{"case_data", "subst1", "truncated", "lead_ws", "trail_ws", "wrong_case", "other_kind", "two_keys", "ws_comment", "ws_only", "cr_only", "key_hash", "key_hash_c", "sep_lost", "sep_gone", "nul", "bom"}
 
 // Run is the C18 check.
 func Run(tier string) {
@@ -435,7 +448,7 @@ func Run(tier string) {
 	maxLines := run.Pick(3, 4)
 	bad := badAll
 	if run.Thorough() {
-		bad = badAll[:12]
+		bad = badAll[:13]
 	}
 	cases := gen(run, "lib", cfg(maxLines, set("key1", "key2"), set("comment", "empty"), "{}", set(bad...), set("lf", "crlf", "none")))
 	vk.Parallel(len(cases), 16, func(i int) {
@@ -468,7 +481,7 @@ func Run(tier string) {
 	})
 	run.Add("cli_identity_files", len(cliCases))
 	// CLI recipients files with SSH and skipped lines
-	rc := gen(run, "clircp", cfg(run.Pick(2, 3), set("key1", "sshkey"), set("comment", "empty"), set("skip"), set("subst1", "lead_ws", "trail_ws", "other_kind", "two_keys", "ws_only", "key_hash", "wrong_case"), set("lf", "crlf", "none")))
+	rc := gen(run, "clircp", cfg(run.Pick(2, 3), set("key1", "sshkey"), set("comment", "empty", "long_comment", "long_comment_key"), set("skip"), set("subst1", "lead_ws", "trail_ws", "other_kind", "two_keys", "ws_only", "key_hash", "wrong_case"), set("lf", "crlf", "none")))
 	var pick []int
 	for i := range rc {
 		if len(rc[i].Lines) <= 1 || (i+int(run.Seed))%run.Pick(7, 5) == 0 {
